@@ -413,3 +413,26 @@ Proof. exact binop_all_extends_impl. Qed.
 Check C01_operators_all_extend_impl : forall o cb op l r st,
   op <> Power -> binop_all o cb op l r st = binop_impl cb op l r st.
 Print Assumptions C01_operators_all_extend_impl.
+
+(* ---- C01_builtin_call_no_panic_full AS WRITTEN (over EvalInst.builtin_impl) is refuted by the model:
+        builtin_impl answers Unmodelled for 50 of the 69 built-ins.  Its content is
+        C01_builtin_call_no_panic_all + C01_builtin_call_never_unmodelled_all above. ---- *)
+Lemma C01_builtin_call_no_panic_full_refuted : ~ C01_builtin_call_no_panic_full.
+Proof.
+  intros H.
+  destruct (H (fun _ _ _ st => (Err, st)) B_sin [VNum nzero] [] ltac:(intros ? ? ? ?; discriminate) eq_refl) as [_ Hu].
+  apply Hu. reflexivity.
+Qed.
+
+(* ---- dyn-fmt, the engine of format and print, is total (stronger than "never Panic") and copies text
+        without braces; the placeholder / escape laws and the crate's own test cases are in
+        proofs/AllFormatLaws.v ---- *)
+Require Import Blots.proofs.AllFormatLaws.
+Theorem C01_dyn_fmt_total : forall fmt args, exists t, dyn_format fmt args = Ok t.
+Proof. exact dyn_format_total. Qed.
+Check C01_dyn_fmt_total : forall fmt args, exists t, dyn_format fmt args = Ok t.
+Print Assumptions C01_dyn_fmt_total.
+Theorem C01_dyn_fmt_plain_text : forall fmt args, all_chars no_brace fmt = true -> dyn_format fmt args = Ok fmt.
+Proof. exact dyn_format_plain. Qed.
+Check C01_dyn_fmt_plain_text : forall fmt args, all_chars no_brace fmt = true -> dyn_format fmt args = Ok fmt.
+Print Assumptions C01_dyn_fmt_plain_text.
